@@ -9,7 +9,9 @@ SPEC = {'level': 'exploration',
              'target': 'c28_testaccept',
              'cases_quick': 800,
              'cases_thorough': 9000,
-             'min_cases_quick': 400,
+             'min_cases_quick': 60,
+             'max_seconds_quick': 600,
+             'max_seconds_thorough': 14400,
              'floors': {'pair-valid': 0.7, 'pair-invalid': 0.7, 'pair-valid-replacement': 0.1, 'pair-invalid-non-final': 0.15, 'pair-invalid-min relay fee not met': 0.2, 'reorg': 0.4},
              'rule': 'test-accept then submit on mempool histories; non-trivial = >= 3 compared pairs incl. one VALID and one INVALID with a pool of >= 3 entries at some test'}]}
 
